@@ -47,12 +47,14 @@ func (compile schemaCompiler) compileNode(node schema.Node, indexOfNode int) {
 	if err := compile.allowedConstraintCheck(node); err != nil {
 		panic(err)
 	}
-	compile.anyConstraint(node) // can panic
+	compile.anyConstraint(node)              // can panic
+	compile.exclusiveMinimumConstraint(node) // can panic
+	compile.exclusiveMaximumConstraint(node) // can panic
+	// After the exclusive flags became part of "min" and "max": with either of
+	// them the bounds have to differ.
 	if err := compile.checkPairConstraints(node); err != nil {
 		panic(err)
 	}
-	compile.exclusiveMinimumConstraint(node)       // can panic
-	compile.exclusiveMaximumConstraint(node)       // can panic
 	compile.optionalConstraints(node, indexOfNode) // can panic
 
 	if branchingNode, ok := node.(schema.BranchNode); ok {
